@@ -55,7 +55,7 @@ def libOfTable (t : List LibEntry) : Interpolant Float := fun _ ys _ =>
 (`CijModel/PPoly.lean`, run directly at `Float`) for `pchip` / `akima` -/
 def kernelFloat (m : Method) (order : Nat) (lib : Interpolant Float) : Interpolant Float :=
   match m with
-  | .lsqPoly => liftRat (lsqInterpolant order)
+  | .lsqPoly => liftRat (lsqInterpolantF order)      -- = `lsqInterpolant` with at least one volume; no volume: numpy's zero solution
   | _ => PPoly.kernelFull m order lib
 
 def errOfString : String → Err
@@ -116,7 +116,8 @@ def handle : Handler := fun op j =>
         | .ok l => listOf libEntryOfJson l
         | .error _ => pure []
       let I := kernelFloat i.method i.order (libOfTable tbl)
-      pure (match interpolateModes i.method i.order I i.vols i.vArray i.nq i.np i.freqs with
+      -- the model WITH the exceptions of malformed inputs (no volume: `[::0]`; a missing frequency: `IndexError`)
+      pure (match interpolateModesF i.method i.order I i.vols i.vArray i.nq i.np i.freqs with
         | .ok (f, g, d) => Json.mkObj [("ok", Json.arr #[jFloats3 f, jFloats3 g, jFloats3 d])]
         | .error e => errJson e)
   | "c11.pchip" => some (ppolyOp PPoly.pchipSlopes j)
